@@ -110,6 +110,11 @@ func (o *ObjectSchema) Unserialize(data any) (result any, err error) {
 	var rawData map[string]any
 	if v.Kind() != reflect.Map {
 		if len(o.Properties()) == 1 {
+			if o.inlineShorthandCycles() {
+				return nil, &ConstraintError{
+					Message: fmt.Sprintf("Must be a map to convert to object, %T given", data),
+				}
+			}
 			rawData, err = o.unserializeInlinedDataToMap(data)
 		} else {
 			return nil, &ConstraintError{
@@ -130,6 +135,35 @@ func (o *ObjectSchema) Unserialize(data any) (result any, err error) {
 		return o.unserializeToStruct(rawData)
 	}
 	return rawData, nil
+}
+
+// inlineShorthandCycles reports whether the single-property shorthand would lead from this object back to
+// itself (object -> its only property -> reference/scope -> object ...). Such a chain never consumes the
+// data, so following it would recurse until the stack is exhausted.
+func (o *ObjectSchema) inlineShorthandCycles() bool {
+	visited := map[*ObjectSchema]bool{}
+	current := o
+	for current != nil && len(current.PropertiesValue) == 1 {
+		if visited[current] {
+			return true
+		}
+		visited[current] = true
+		var next *ObjectSchema
+		for _, property := range current.PropertiesValue {
+			switch propertyType := property.TypeValue.(type) {
+			case *ObjectSchema:
+				next = propertyType
+			case *RefSchema:
+				if propertyType.ObjectReady() {
+					next, _ = propertyType.GetObject().(*ObjectSchema)
+				}
+			case *ScopeSchema:
+				next = propertyType.ObjectsValue[propertyType.RootValue]
+			}
+		}
+		current = next
+	}
+	return false
 }
 
 func (o *ObjectSchema) unserializeInlinedDataToMap(data any) (map[string]any, error) {
